@@ -28,3 +28,87 @@ package wal
 //@ iface WriteAheadLogAppendI.Rotate
 //@   ensures [step] walRot(this) == old(walRot(this)) + 1
 //@   modifies walRot(this)
+
+// ---------------------------------------------------------------------------------------------------
+// C07: the appender. Records go to the current file's writer; a writer is replaced only after it was closed (Close flushes,
+// C04), the files are numbered in creation order, a synchronous append returns only after write + flush + fsync
+// (FileWriter.WriteSync, verified under C07/C04).
+
+//@ fnvalue Options.writerFactory
+//@   ensures r1 == nil ==> r0 != nil && !wrClosed(r0) && wrCount(r0) == 0 && wrSynced(r0) == 0
+//@   fresh r0
+//@   modifies nothing
+
+//@ func setupNextWriter
+//@   props C07
+//@   requires a != nil && a.walOptions != nil
+//@   ensures [numbers-ascend] r0 == nil ==> a.nextWriterNumber == old(a.nextWriterNumber) + 1
+//@   ensures [fresh-open-writer] r0 == nil ==> a.currentWriter != nil && a.currentWriter != old(a.currentWriter) && fresh(a.currentWriter) &&
+//@           !wrClosed(a.currentWriter) && wrCount(a.currentWriter) == 0
+//@   ensures [failure-keeps-writer] r0 != nil ==> a.currentWriter == old(a.currentWriter) && a.nextWriterNumber == old(a.nextWriterNumber)
+//@   ensures [file-limit] old(a.nextWriterNumber) >= 1000000 ==> r0 != nil
+//@   modifies a.nextWriterNumber, a.currentWriter, a.currentWriterPath
+//@   safety on
+
+//@ func (*Appender).Rotate
+//@   props C07 C13
+//@   requires a.currentWriter != nil && a.walOptions != nil
+//@   ensures [replaced-only-after-close] a.currentWriter != old(a.currentWriter) ==> wrClosed(old(a.currentWriter))
+//@   ensures [success-replaces-the-writer] r1 == nil ==> a.currentWriter != old(a.currentWriter) && fresh(a.currentWriter) && a.currentWriter != nil &&
+//@           !wrClosed(a.currentWriter) && wrCount(a.currentWriter) == 0 && r0 == old(a.currentWriterPath)
+//@   ensures [no-record-written] wrCount(old(a.currentWriter)) == old(wrCount(a.currentWriter))
+//@   ensures [failure-keeps-writer] r1 != nil ==> a.currentWriter == old(a.currentWriter)
+//@   exit [close-error-reported] called(WriterI.Close, 0) && callres(WriterI.Close, 0, 0) != nil ==> r1 != nil && a.currentWriter == old(a.currentWriter)
+//@   call 0 of setupNextWriter: assert [old-writer-closed-first] wrClosed(a.currentWriter)
+//@   modifies a.nextWriterNumber, a.currentWriter, a.currentWriterPath, wrClosed(a.currentWriter)
+
+//@ func checkSizeAndRotate
+//@   props C07
+//@   requires a != nil && a.currentWriter != nil && a.walOptions != nil && 0 <= nextRecordSize
+//@   requires wrSize(a.currentWriter) >= 0 && wrSize(a.currentWriter) < 4611686018427387904
+//@   ensures [replaced-only-after-close] a.currentWriter != old(a.currentWriter) ==> wrClosed(old(a.currentWriter)) && fresh(a.currentWriter) &&
+//@           !wrClosed(a.currentWriter) && wrCount(a.currentWriter) == 0
+//@   ensures [rotates-when-the-record-does-not-fit] r0 == nil && old(wrSize(a.currentWriter)) + nextRecordSize > a.walOptions.maxWalFileSize ==>
+//@           a.currentWriter != old(a.currentWriter)
+//@   ensures [keeps-the-file-otherwise] old(wrSize(a.currentWriter)) + nextRecordSize <= a.walOptions.maxWalFileSize ==> r0 == nil && a.currentWriter == old(a.currentWriter)
+//@   ensures [no-record-written] wrCount(old(a.currentWriter)) == old(wrCount(a.currentWriter))
+//@   ensures [writer-stays-usable] a.currentWriter != nil
+//@   modifies a.nextWriterNumber, a.currentWriter, a.currentWriterPath, wrClosed(a.currentWriter)
+//@   safety on
+
+//@ func (*Appender).Append
+//@   props C07 C17
+//@   requires a.currentWriter != nil && a.walOptions != nil && wrSize(a.currentWriter) >= 0 && wrSize(a.currentWriter) < 4611686018427387904
+//@   ensures [replaced-only-after-close] a.currentWriter != old(a.currentWriter) ==> wrClosed(old(a.currentWriter))
+//@   ensures [closed-files-get-no-more-records] a.currentWriter != old(a.currentWriter) ==> wrCount(old(a.currentWriter)) == old(wrCount(a.currentWriter))
+//@   ensures [success-appends-one-record-to-the-current-file] r0 == nil ==>
+//@           wrCount(a.currentWriter) == (a.currentWriter == old(a.currentWriter) ? old(wrCount(a.currentWriter)) + 1 : 1)
+//@   exit [C07,C17:error-means-not-appended] r0 != nil ==> !(called(WriterI.Write, 0) && callres(WriterI.Write, 0, 1) == nil)
+//@   call 0 of WriterI.Write: assert [record-passed-unchanged] arg0 === record
+//@   modifies a.nextWriterNumber, a.currentWriter, a.currentWriterPath, wrClosed(a.currentWriter), wrCount(*), wrSize(*)
+
+//@ func (*Appender).AppendSync
+//@   props C07 C17 C02
+//@   requires a.currentWriter != nil && a.walOptions != nil && wrSize(a.currentWriter) >= 0 && wrSize(a.currentWriter) < 4611686018427387904
+//@   ensures [replaced-only-after-close] a.currentWriter != old(a.currentWriter) ==> wrClosed(old(a.currentWriter))
+//@   ensures [closed-files-get-no-more-records] a.currentWriter != old(a.currentWriter) ==> wrCount(old(a.currentWriter)) == old(wrCount(a.currentWriter))
+//@   ensures [success-appends-one-record-to-the-current-file] r0 == nil ==>
+//@           wrCount(a.currentWriter) == (a.currentWriter == old(a.currentWriter) ? old(wrCount(a.currentWriter)) + 1 : 1)
+//@   ensures [C07,C02:synced-before-return] r0 == nil ==> wrSynced(a.currentWriter) == wrCount(a.currentWriter)
+//@   exit [C07,C17:error-means-not-appended] r0 != nil ==> !(called(WriterI.WriteSync, 0) && callres(WriterI.WriteSync, 0, 1) == nil)
+//@   call 0 of WriterI.WriteSync: assert [record-passed-unchanged] arg0 === record
+//@   modifies a.nextWriterNumber, a.currentWriter, a.currentWriterPath, wrClosed(a.currentWriter), wrCount(*), wrSize(*), wrSynced(*)
+
+//@ func (*Appender).Close
+//@   props C07 C19
+//@   requires a.currentWriter != nil
+//@   ensures [current-file-closed] wrClosed(a.currentWriter)
+//@   exit [close-error-reported] callres(WriterI.Close, 0, 0) != nil ==> r0 != nil
+//@   modifies wrClosed(a.currentWriter)
+
+//@ func NewAppender
+//@   props C07
+//@   requires walOpts != nil
+//@   ensures [starts-with-file-zero] r1 == nil ==> r0 != nil && asType(*Appender, r0).nextWriterNumber == 1 && asType(*Appender, r0).currentWriter != nil &&
+//@           wrCount(asType(*Appender, r0).currentWriter) == 0 && asType(*Appender, r0).walOptions == walOpts
+//@   ensures r1 != nil ==> r0 == nil
